@@ -56,7 +56,7 @@ def cotangent_rule(ctx, res, rule, rows_atom, entry_fn):
     ones = [e for e in _pipe.evs(res, "create") if e["fn"] == "ones_like" and e["like"] == [rows_atom]]
     others = [e for e in _pipe.evs(res, "create") if e["like"] == [rows_atom] and e["fn"] != "ones_like"]
     dg = _pipe.evs(res, "diag")
-    okd = len(dg) == 1 and rows_atom in dg[0]["layout"][0] and "'same'" in dg[0]["layout"][0] if dg and dg[0]["layout"] else False
+    okd = len(dg) == 1 and (rows_atom in dg[0]["layout"][0] or "literal-sequence" in dg[0]["layout"][0]) and "'same'" in dg[0]["layout"][0] if dg and dg[0]["layout"] else False
     ctx.require(bool(ones) and not others, rule, "Init: cotangents are ones of each tensor's shape", "ones_like(value) per requested tensor",
                 f"initial cotangents are not ones_like of the differentiated tensors (creations: {[e['fn'] for e in others][:3]})", ones[0]["loc"] if ones else entry_fn.loc())
     ctx.require(okd, rule, "Diagonalize: one row per scalar, in the order `tensors` were given",
@@ -71,7 +71,7 @@ def materialise_rule(ctx, res, rule, entry_fn):
         k = f"{_layout.short_fn(e)}: autograd.grad(allow_unused=...)"
         later = [c for c in _pipe.evs(res, "create") if c["seq"] > e["seq"] and c["fn"] == "zeros_like"]
         inp = atoms_of_desc(e["inputs"]) or []
-        ok = e["allow_unused"] is True and any(set(c["like"] or []) <= set(inp) and c["like"] for c in later)
+        ok = (e["allow_unused"] is True and any(set(c["like"] or []) <= set(inp) and c["like"] for c in later)) or e.get("materialize_grads") is True
         ctx.require(ok, rule, k, "allow_unused=True and missing gradients replaced by zeros_like(input)",
                     f"allow_unused={e['allow_unused']}; zeros materialisation after the call: {[c['like'] for c in later][:2]}", e["loc"])
 
@@ -89,7 +89,7 @@ def idiom_rules(ctx, index, rule):
             init0 = _layout.offset_initialised_to_zero(fi.node, loop, start)
             ctx.require(ok and init0, rule, f"{fi.short}: running offsets over `{norm_text(loop.iter)}`", "start = 0; end = start + width(element); start = end",
                         (why or "") + ("" if init0 else f"; `{start}` is not initialised to 0 before the loop"), fi.loc(loop))
-    ctx.floor("running-offset loops", n, 2)
+    ctx.floor("running-offset loops", n, 1)
 
 
 def single_pass_rule(ctx, index, rule, entry_fn):
@@ -136,9 +136,16 @@ def single_pass_rule(ctx, index, rule, entry_fn):
             ctx.ok(rule, f"{entry_fn.short}: parameter `{name}` ({ann})", "materialised before any traversal" if state == "materialised" else "never traversed raw", entry_fn.loc())
 
 
+MATERIALISERS = ("list", "tuple", "set", "frozenset", "sorted", "ordered_set", "dict.fromkeys", "OrderedDict.fromkeys", "collections.OrderedDict.fromkeys")
+
+
 def materialises(value, name, nested) -> bool:
-    if isinstance(value, ast.Call) and isinstance(value.func, ast.Name) and value.func.id in ("list", "tuple", "set", "frozenset", "sorted", "ordered_set") \
-            and len(value.args) == 1 and isinstance(value.args[0], ast.Name) and value.args[0].id == name:
+    v = value
+    depth = 0
+    while isinstance(v, ast.Call) and ast.unparse(v.func) in MATERIALISERS and v.args and depth < 4:
+        v = v.args[0]
+        depth += 1
+    if depth and isinstance(v, ast.Name) and v.id == name:
         return not nested
     if isinstance(value, ast.ListComp) and len(value.generators) == 1 and isinstance(value.generators[0].iter, ast.Name) and value.generators[0].iter.id == name:
         e = value.elt
